@@ -149,7 +149,8 @@ func execute(sc scenario) (ctorOK bool, ctorNilNil bool, outs []string) {
 	for _, f := range sc.Futures {
 		w.futures = append(w.futures, chain(w, f))
 	}
-	ctx := context.Background()
+	ctx, cancelParent := context.WithCancel(context.Background()) // op "X" cancels the context given to the constructor
+	defer cancelParent()
 	timeout := time.Hour
 	if sc.Elapsed {
 		timeout = 0
@@ -244,6 +245,9 @@ func execute(sc scenario) (ctorOK bool, ctorNilNil bool, outs []string) {
 		case "C":
 			_ = p.Close()
 			outs = append(outs, "u")
+		case "X":
+			cancelParent()
+			outs = append(outs, "u")
 		case "D":
 			if dry != nil {
 				_ = dry()
@@ -279,7 +283,7 @@ func coqCase(sc scenario, ctorOK bool, outs []string) string {
 	}
 	ops := make([]string, len(sc.Ops))
 	for i, o := range sc.Ops {
-		ops[i] = map[string]string{"H": "HasNext", "G": "GetNext", "S": "Stop", "C": "Close", "D": "DryUp"}[o]
+		ops[i] = map[string]string{"H": "HasNext", "G": "GetNext", "S": "Stop", "C": "Close", "D": "DryUp", "X": "Stop"}[o] // X = cancellation of the parent context: the same transition as Stop in the model
 	}
 	os := make([]string, len(outs))
 	for i, o := range outs {
@@ -369,7 +373,7 @@ func oracle(r *h.Run, sc scenario, ctorOK, nilNil bool, outs []string) {
 	for i, o := range sc.Ops {
 		out := outs[i]
 		switch o {
-		case "S", "C":
+		case "S", "C", "X":
 			stopped = true
 		case "D":
 			driedUp = true
@@ -490,6 +494,8 @@ func genOps(r *h.Run, stream bool, total int) []string {
 				ops = append(ops, "S")
 			case x < 95 && mode == 4:
 				ops = append(ops, "C")
+			case x < 96 && mode >= 3:
+				ops = append(ops, "X")
 			case x < 98 && stream:
 				ops = append(ops, "D")
 			default:
@@ -739,6 +745,9 @@ func main() {
 		runScenario(r, scenario{Paginator: k, Pages: []pageSpec{{Kind: kFetchFail}}, Ops: []string{"H"}}, true)
 		// empty collection, empty pages anywhere
 		runScenario(r, scenario{Paginator: k, Pages: []pageSpec{{}}, Ops: []string{"H", "G", "H"}}, true)
+		// cancellation through the context given to the constructor (not Stop/Close), items still left
+		runScenario(r, scenario{Paginator: k, Pages: []pageSpec{{Items: []int64{1, 2, 3}}, {Items: []int64{4}}}, Ops: []string{"G", "X", "H", "G", "G", "H"}}, true)
+		runScenario(r, scenario{Paginator: k, Pages: []pageSpec{{Items: []int64{1}}, {Items: []int64{2, 3}}}, Ops: []string{"X", "G", "H"}}, true)
 		runScenario(r, scenario{Paginator: k, Pages: []pageSpec{{}, {}, {Items: []int64{1, 2}}, {}, {Items: []int64{3}}, {}},
 			Ops: []string{"G", "H", "H", "G", "G", "G", "H"}}, true)
 	}
